@@ -7,7 +7,14 @@ import random as pyrandom
 
 from common import c_bool, c_list, c_nat, c_opt, c_str, c_Z
 
+from golem.core.dag.graph_verifier import GraphVerifier
+from golem.core.dag.verification_rules import DEFAULT_DAG_RULES
+from golem.core.optimisers.initial_graphs_generator import InitialPopulationGenerator
 from golem.core.optimisers.opt_graph_builder import OptGraphBuilder, merge_opt_graph_builders
+from golem.core.optimisers.opt_node_factory import DefaultOptNodeFactory
+from golem.core.optimisers.optimization_parameters import GraphRequirements
+from golem.core.optimisers.optimizer import GraphGenerationParams
+from golem.core.optimisers.random_graph_factory import RandomGrowthGraphFactory, random_graph
 
 REQ_B = ['Gen.Builder']
 FN_B = ('fun c => match c with (k, cs, obs) => [agree k cs obs; holds_b k cs obs; uids_ok_b obs] end')
@@ -374,6 +381,275 @@ def run_builder(ctx):
     return n_exh
 
 
+# ----------------------------------------------------------------------------------------
+# random graph factory / initial population generator
+# ----------------------------------------------------------------------------------------
+REQ_F = ['Gen.Factory']
+TYPES = ['a', 'b', 'c']
+
+
+def to_tree(graph, types):
+    """[type index, [children...]] from the first listed node (the root is created first);
+    children = nodes_from in order"""
+    def rec(n, depth):
+        if depth > 64:
+            raise AssertionError('not a tree')
+        return [types.index(n.content['name']), [rec(p, depth + 1) for p in n.nodes_from]]
+    return rec(graph.nodes[0], 0)
+
+
+def c_tree(t):
+    return '(T %s %s)' % (c_nat(t[0]), c_list([c_tree(k) for k in t[1]], 'tree'))
+
+
+def tree_nodes(t):
+    return 1 + sum(tree_nodes(k) for k in t[1])
+
+
+def c_vkind(v):
+    return v[0] if len(v) == 1 else '(%s %s)' % (v[0], c_nat(v[1]))
+
+
+def c_req(md, mn, mx):
+    return '(mkReq %s %s %s)' % (c_nat(md), c_nat(mn), c_nat(mx))
+
+
+def make_rules(v, types, recorder=None):
+    """rule list for a verifier kind; the recorder (first rule, always True) notes every graph
+    the verifier is shown"""
+    k = v[0]
+    custom = {
+        'VAll': [],
+        'VMinSize': [lambda g: g.length >= v[1]] if k == 'VMinSize' else None,
+        'VRootNot': [lambda g: g.nodes[0].content['name'] != types[v[1]] if v[1] < len(types) else True]
+        if k == 'VRootNot' else None,
+        'VMinDepth': [lambda g: g.depth >= v[1]] if k == 'VMinDepth' else None,
+        'VNever': [lambda g: False],
+    }[k]
+    base = list(DEFAULT_DAG_RULES) if k in ('VAll', 'VMinSize', 'VMinDepth') else []
+    rules = base + custom
+    if recorder is not None:
+        rules = [recorder] + rules
+    return rules
+
+
+def observe_factory(case):
+    md, mn, mx, arg, nt, v, seed = (case[k] for k in ('md', 'mn', 'mx', 'arg', 'nt', 'v', 'seed'))
+    types = TYPES[:nt]
+    seen = []
+    state = {'on': True}
+
+    def recorder(g):
+        if state['on']:
+            seen.append(to_tree(g, types))
+        return True
+    verifier = GraphVerifier(make_rules(v, types, recorder))
+    nf = DefaultOptNodeFactory(types)
+    req = GraphRequirements(max_depth=md, min_arity=mn, max_arity=mx)
+    pyrandom.seed(seed)
+    try:
+        g = random_graph(verifier, nf, req, arg)
+    except ValueError:
+        g = None
+    state['on'] = False
+    if g is None:
+        return {'attempts': seen, 'result': None, 'accepted': False, 'depth': 0, 'nodes': []}
+    return {'attempts': seen, 'result': to_tree(g, types), 'accepted': verifier(g) is True, 'depth': g.depth,
+            'nodes': [types.index(n.content['name']) for n in g.nodes]}
+
+
+def c_fobs(o):
+    return '(mkFObs %s %s %s %s %s)' % (c_list([c_tree(t) for t in o['attempts']], 'tree'),
+                                       c_opt(o['result'], c_tree, 'tree'), c_bool(o['accepted']),
+                                       c_nat(max(0, o['depth'])), c_list([c_nat(x) for x in o['nodes']], 'nat'))
+
+
+def c_factory_case(case, o):
+    return '(%s, %s, %s, %s, %s)' % (c_vkind(case['v']), c_req(case['md'], case['mn'], case['mx']),
+                                     c_opt(case['arg'], c_nat, 'nat'), c_nat(case['nt']), c_fobs(o))
+
+
+FN_F = 'fun c => match c with (v, rq, arg, nt, o) => [f_agree v rq arg nt o; f_holds rq arg o] end'
+
+
+def eval_factory(ctx, group, cases_in, canary=False):
+    cases, meta = [], []
+    for case in cases_in:
+        o = observe_factory(case)
+        cases.append(c_factory_case(case, o))
+        meta.append((case, o))
+    n_can = 0
+    if canary:
+        case = {'md': 3, 'mn': 2, 'mx': 2, 'arg': None, 'nt': 2, 'v': ['VAll'], 'seed': 5}
+        o = observe_factory(case)
+        assert o['result'] is not None and o['result'][1]
+        o['depth'] = 4                                  # deeper than max_depth
+        cases.append(c_factory_case(case, o))
+        o = observe_factory(case)
+        o['result'][1].append([0, []])                  # one parent too many at the root
+        cases.append(c_factory_case(case, o))
+        n_can = 2
+        ctx.canaries += 2
+    res = ctx.coq_cases(group, REQ_F, FN_F, cases, 2, shard=150)
+    if n_can:
+        for ag, ho in res[-n_can:]:
+            if not ag and not ho:
+                ctx.canaries_caught += 1
+        res = res[:-n_can]
+    for (case, o), (ag, ho) in zip(meta, res):
+        c = dict(case, kind='factory')
+        size = tree_nodes(o['result']) if o['result'] else 0
+        ctx.count(group, key=tuple(sorted((k, repr(x)) for k, x in case.items())), nontrivial=size >= 2,
+                  max_depth=case['md'], arity='%d-%d' % (case['mn'], case['mx']), verifier=case['v'][0],
+                  attempts=min(len(o['attempts']), 5) if len(o['attempts']) < 1000 else 1001,
+                  outcome='graph' if o['result'] else 'ValueError', size=min(size, 40) // 5 * 5)
+        if not ho:
+            ctx.violate(group, c, 'random_graph returned a graph outside the contract (verifier / depth / arity) '
+                                  'or raised before the attempt limit')
+        if not ag:
+            ctx.disagree(group, c, 'model and random_graph differ')
+    return meta
+
+
+def observe_population(case):
+    md, mn, mx, nt, v, seed, ps = (case[k] for k in ('md', 'mn', 'mx', 'nt', 'v', 'seed', 'pop_size'))
+    types = TYPES[:nt]
+    nf = DefaultOptNodeFactory(types)
+    generated = []
+    raised = [False]
+
+    class Factory:
+        """records what the real factory hands to the generator"""
+
+        def __init__(self, verifier):
+            self.real = RandomGrowthGraphFactory(verifier, nf)
+
+        def __call__(self, requirements, max_depth=None):
+            try:
+                g = self.real(requirements, max_depth)
+            except ValueError:
+                raised[0] = True
+                raise
+            generated.append(to_tree(g, types))
+            return g
+    gp = GraphGenerationParams(rules_for_constraint=make_rules(v, types), node_factory=nf)
+    gp.random_graph_factory = Factory(gp.verifier)
+    req = GraphRequirements(max_depth=md, min_arity=mn, max_arity=mx)
+    pyrandom.seed(seed)
+    try:
+        pop = InitialPopulationGenerator(ps, gp, req)()
+    except ValueError:
+        pop = None
+    if pop is None:
+        return {'generated': generated, 'raised': raised[0], 'result': None, 'accepted': [], 'pairs': [], 'depths': []}
+    pop = list(pop)
+    return {'generated': generated, 'raised': raised[0], 'result': [to_tree(g, types) for g in pop],
+            'accepted': [gp.verifier(g) is True for g in pop],
+            'pairs': [bool(pop[i] == pop[j]) for i in range(len(pop)) for j in range(i + 1, len(pop))],
+            'depths': [g.depth for g in pop]}
+
+
+def c_pobs(o):
+    res = None if o['result'] is None else c_list([c_tree(t) for t in o['result']], 'tree')
+    return '(mkPObs %s %s %s %s %s %s)' % (
+        c_list([c_tree(t) for t in o['generated']], 'tree'), c_bool(o['raised']),
+        '(@None (list tree))' if res is None else '(Some %s)' % res,
+        c_list([c_bool(b) for b in o['accepted']], 'bool'), c_list([c_bool(b) for b in o['pairs']], 'bool'),
+        c_list([c_nat(max(0, d)) for d in o['depths']], 'nat'))
+
+
+FN_P = 'fun c => match c with (v, rq, ps, o) => [p_agree v ps o; p_holds rq ps o] end'
+
+
+def eval_population(ctx, group, cases_in, canary=False):
+    cases, meta = [], []
+    for case in cases_in:
+        o = observe_population(case)
+        cases.append('(%s, %s, %s, %s)' % (c_vkind(case['v']), c_req(case['md'], case['mn'], case['mx']),
+                                           c_nat(case['pop_size']), c_pobs(o)))
+        meta.append((case, o))
+    n_can = 0
+    if canary:
+        case = {'md': 3, 'mn': 1, 'mx': 2, 'nt': 3, 'v': ['VAll'], 'seed': 3, 'pop_size': 3}
+        o = observe_population(case)
+        assert o['result'] and len(o['result']) == 3
+        o['result'][2] = o['result'][0]               # a duplicate inside the population
+        o['pairs'][1] = True
+        cases.append('(%s, %s, %s, %s)' % (c_vkind(case['v']), c_req(case['md'], case['mn'], case['mx']),
+                                           c_nat(case['pop_size']), c_pobs(o)))
+        n_can = 1
+        ctx.canaries += 1
+    res = ctx.coq_cases(group, REQ_F, FN_P, cases, 2, shard=60)
+    if n_can:
+        for ag, ho in res[-n_can:]:
+            if not ag and not ho:
+                ctx.canaries_caught += 1
+        res = res[:-n_can]
+    for (case, o), (ag, ho) in zip(meta, res):
+        c = dict(case, kind='population')
+        n = len(o['result']) if o['result'] is not None else -1
+        ctx.count(group, key=tuple(sorted((k, repr(x)) for k, x in case.items())), nontrivial=n >= 2,
+                  pop_size=case['pop_size'], returned=n, verifier=case['v'][0],
+                  short=(n >= 0 and n < case['pop_size']), generated=min(len(o['generated']), 1000) // 10 * 10)
+        if not ho:
+            ctx.violate(group, c, 'initial population outside the contract (verified / distinct / size / bounds)')
+        if not ag:
+            ctx.disagree(group, c, 'model and InitialPopulationGenerator differ')
+    return meta
+
+
+def pick_verifier(r, md, nt):
+    k = r.choice(['VAll', 'VAll', 'VMinSize', 'VRootNot', 'VMinDepth'])
+    if k == 'VMinSize':
+        return [k, r.choice([1, 2, 3, 5])] if md > 1 else [k, 1]
+    if k == 'VRootNot':
+        return [k, r.randrange(nt + 1)] if nt > 1 else [k, 1]
+    if k == 'VMinDepth':
+        return [k, r.randint(1, min(md, 3))]
+    return [k]
+
+
+def run_generators(ctx):
+    r = ctx.rng
+    grid = [(md, mn, mx, nt) for md in range(1, 7) for mn in range(1, 5) for mx in range(mn, 5) for nt in (1, 2, 3)]
+    cases = []
+    per = ctx.pick(10, 120)
+    for md, mn, mx, nt in grid:
+        for i in range(per):
+            v = ['VAll'] if i == 0 else pick_verifier(r, md, nt)
+            arg = None if i % 4 else r.choice([None, md, r.randint(2, 6)] if md > 1 else [None, 1])
+            cases.append({'md': md, 'mn': mn, 'mx': mx, 'arg': arg, 'nt': nt, 'v': v, 'seed': r.randrange(10 ** 6)})
+    # attempt limit, empty arity range, override quirks (see docs/C20.md)
+    for md, mn, mx in [(1, 1, 1), (2, 1, 2), (2, 2, 2)]:
+        cases.append({'md': md, 'mn': mn, 'mx': mx, 'arg': None, 'nt': 2, 'v': ['VNever'], 'seed': r.randrange(10 ** 6)})
+    cases.append({'md': 2, 'mn': 1, 'mx': 1, 'arg': None, 'nt': 1, 'v': ['VRootNot', 0], 'seed': 1})
+    for md, mn, mx in [(3, 3, 2), (2, 4, 1), (1, 2, 1)]:
+        cases.append({'md': md, 'mn': mn, 'mx': mx, 'arg': None, 'nt': 2, 'v': ['VAll'], 'seed': r.randrange(10 ** 6)})
+    for md, arg in [(3, 1), (4, 0), (2, 1), (5, 1)]:
+        cases.append({'md': md, 'mn': 1, 'mx': 3, 'arg': arg, 'nt': 2, 'v': ['VAll'], 'seed': r.randrange(10 ** 6)})
+    meta = eval_factory(ctx, 'random-graph', cases, canary=True)
+    ctx.set_exhaustive('random-graph', False)
+    big = [m for m in meta if m[1]['result'] and tree_nodes(m[1]['result']) >= 4]
+    for case, o in big[:2]:
+        ctx.sample({'kind': 'factory', 'case': case, 'attempts': len(o['attempts']), 'returned_tree': o['result'],
+                    'depth': o['depth']})
+    # initial populations
+    cases = []
+    for _ in range(ctx.budget(150, 2500)):
+        md, mn, mx, nt = r.choice(grid)
+        cases.append({'md': md, 'mn': mn, 'mx': mx, 'nt': nt, 'v': pick_verifier(r, md, nt),
+                      'seed': r.randrange(10 ** 6), 'pop_size': r.choice([0, 1, 2, 3, 3, 5, 8, 12])})
+    # more graphs requested than exist: the attempt limit ends the loop with a short population
+    for nt, ps in [(1, 2), (2, 3), (3, 5)][:ctx.pick(2, 3)]:
+        cases.append({'md': 1, 'mn': 1, 'mx': 1, 'nt': nt, 'v': ['VAll'], 'seed': r.randrange(10 ** 6), 'pop_size': ps})
+    cases.append({'md': 2, 'mn': 1, 'mx': 1, 'nt': 1, 'v': ['VNever'], 'seed': 7, 'pop_size': 2})
+    meta = eval_population(ctx, 'initial-population', cases, canary=True)
+    ctx.set_exhaustive('initial-population', False)
+    for case, o in [m for m in meta if m[1]['result'] and len(m[1]['result']) >= 3][:1]:
+        ctx.sample({'kind': 'population', 'case': case, 'generated': len(o['generated']),
+                    'returned': o['result'][:3]})
+
+
 def run(ctx):
     ctx.rule = ('builder: call sequences over k real OptGraphBuilder objects (exhaustive up to length 3/4 over a '
                 'small alphabet incl. out-of-range indices, None / empty / (None, params) operations, merges, '
@@ -381,6 +657,7 @@ def run(ctx):
                 'some builder reaches >= 2 nodes.')
     ctx.trusted_extra = ['copy.deepcopy modelled as a fresh isomorphic sub-heap; LinkedGraph.sort_nodes not modelled']
     run_builder(ctx)
+    run_generators(ctx)
 
 
 def replay(ctx, payload):
@@ -390,3 +667,7 @@ def replay(ctx, payload):
         return
     if case.get('kind') == 'builder':
         eval_builder(ctx, 'replay', [(case['k'], case['calls'])])
+    elif case.get('kind') == 'factory':
+        eval_factory(ctx, 'replay', [{k: v for k, v in case.items() if k != 'kind'}])
+    elif case.get('kind') == 'population':
+        eval_population(ctx, 'replay', [{k: v for k, v in case.items() if k != 'kind'}])
